@@ -632,6 +632,7 @@ func (fr *Frame) selectStmt(st *State, n *ast.SelectStmt) flow {
 		s.pc = x.namePC(x.and(st.pc, "(and "+c.ready+" (= "+choice+" "+fmt.Sprint(i)+"))"))
 		switch cm := c.cc.Comm.(type) {
 		case *ast.SendStmt:
+			fr.atHooks(s, cm)
 			ch := fr.expr(s, cm.Chan)
 			v := fr.expr(s, cm.Value)
 			fr.chanSend(s, cm, ch, v, false)
@@ -670,9 +671,20 @@ func (fr *Frame) selectStmt(st *State, n *ast.SelectStmt) flow {
 		}
 		out.cont = append(out.cont, f.cont...)
 		out.rets = append(out.rets, f.rets...)
-	} else if fr.contract != nil && fr.nonblocking() {
+	} else if fr.contract != nil && fr.nonblocking() && selectHasSend(n) {
 		x.u.oblige("nonblocking:select", "nonblocking", "select without default may block", fr.pos(n.Pos()), st.pc, "false")
 	}
 	out.next = x.merge(ends)
 	return out
+}
+
+func selectHasSend(n *ast.SelectStmt) bool {
+	for _, c := range n.Body.List {
+		if cc, ok := c.(*ast.CommClause); ok {
+			if _, isSend := cc.Comm.(*ast.SendStmt); isSend {
+				return true
+			}
+		}
+	}
+	return false
 }
